@@ -53,6 +53,7 @@ class FlagEnv:
       if c == self.cls:
         self.assign[m] = v
     self._host_cache: Dict[str, Optional[bool]] = {}
+    self.enum_assign: Dict[str, Tuple[str, str]] = {}  # option attribute -> (enum class, member), e.g. integrator -> (IntegratorType, IMPLICIT)
     self.lc = None  # launch context used to resolve scalar kernel parameters to their host binding
 
   # ---- host atoms (canonical python-like text)
@@ -125,6 +126,21 @@ class FlagEnv:
       return self._h(n.args[0])
     if isinstance(n, ast.Constant) and isinstance(n.value, bool):
       return n.value
+    if isinstance(n, ast.Compare) and len(n.ops) == 1 and isinstance(n.left, ast.Attribute) and n.left.attr in self.enum_assign:
+      cls, member = self.enum_assign[n.left.attr]
+      op, rhs = n.ops[0], n.comparators[0]
+
+      def mem(x):
+        if isinstance(x, ast.Attribute) and isinstance(x.value, ast.Name) and x.value.id == cls:
+          return x.attr
+        return None
+
+      if isinstance(op, (ast.Eq, ast.NotEq, ast.Is, ast.IsNot)) and mem(rhs) is not None:
+        eq = mem(rhs) == member
+        return eq if isinstance(op, (ast.Eq, ast.Is)) else (not eq)
+      if isinstance(op, (ast.In, ast.NotIn)) and isinstance(rhs, (ast.List, ast.Tuple, ast.Set)) and all(mem(e) is not None for e in rhs.elts):
+        isin = member in [mem(e) for e in rhs.elts]
+        return isin if isinstance(op, ast.In) else (not isin)
     return U
 
   # ---- kernel terms
@@ -273,4 +289,55 @@ def check_sibling_gating(res, db: DB, entries, pairs, members) -> int:
         ),
         sample={"derivative": dk, "force": fk, "disabled": setbits},
       )
+  return n
+
+
+def check_derivative_completeness(res, db: DB, force_entries, deriv_entry: str, needed, members, integrators) -> int:
+  """R-FLAGS.4 (converse of R-FLAGS.3): for each (derivative kernel, force kernel, flags that must be clear) and every
+  assignment of `members` under which some launch of the velocity-dependent force kernel is reachable, the launches of
+  its velocity-derivative sibling on the implicit integrators' path must not all be unreachable - for each implicit
+  integrator separately. Otherwise a flag combination silently removes the implicit treatment of a force that is on."""
+  import itertools
+
+  from ..report import Finding
+
+  f_launch: Dict[str, List[tuple]] = {}
+  for entry in force_entries:
+    for ev in db.trace(entry).events:
+      if ev.kind == "launch" and ev.kernel is not None:
+        f_launch.setdefault(ev.kernel.fi.key.split(".kernel")[0], []).append((ev.pc, ev.loc))
+  d_launch: Dict[str, List[tuple]] = {}
+  for ev in db.trace(deriv_entry).events:
+    if ev.kind == "launch" and ev.kernel is not None:
+      d_launch.setdefault(ev.kernel.fi.key.split(".kernel")[0], []).append((ev.pc, ev.loc))
+  n = 0
+  for dk, fk, must_clear in needed:
+    if dk not in d_launch or fk not in f_launch:
+      res.error(f"anchor vanished: no launch of {dk if dk not in d_launch else fk} reachable from {deriv_entry if dk not in d_launch else force_entries}")
+      continue
+    for vals in itertools.product([False, True], repeat=len(members)):
+      asg = {f"DisableBit.{m}": v for m, v in zip(members, vals)}
+      if any(asg[f"DisableBit.{m}"] for m in must_clear):
+        continue
+      first = next(iter(asg))
+      env = FlagEnv(first, asg[first], asg)
+      if all(env.pc_host(pc) is False for pc, _ in f_launch[fk]):
+        continue
+      setbits = "+".join(m for m, v in zip(members, vals) if v) or "none"
+      for integ in integrators:
+        env2 = FlagEnv(first, asg[first], asg)
+        env2.enum_assign = {"integrator": ("IntegratorType", integ)}
+        n += 1
+        dead = all(env2.pc_host(pc) is False for pc, _ in d_launch[dk])
+        res.ob(
+          not dead,
+          f"{dk}|{fk}|{setbits}|{integ}|needed",
+          Finding(
+            "R-FLAGS.4",
+            f"{dk}|{fk}|{setbits}|{integ}",
+            f"with {setbits} disabled {fk} is still launched (its force is on), but under integrator {integ} every launch of its velocity derivative {dk} in {deriv_entry}() is unreachable: the flag combination removes the implicit treatment of a force it does not disable",
+            d_launch[dk][0][1],
+          ),
+          sample={"derivative": dk, "force": fk, "disabled": setbits, "integrator": integ},
+        )
   return n
